@@ -47,7 +47,7 @@ PROPS = {
         "rule": "random schedules (valid H:MM / HH:MM, wrap, equal, one minute apart, junk-embedded, malformed stream ~12%), "
                 "instants at window boundaries +-1ns/+-1s on days around epoch, leap days, far past/future, shifted +-1 day, "
                 "expressed in 9 fixed zones; weekday sets tied to the day of t / the day before; date lists near t incl. invalid; "
-                "distinct = distinct case line; non-trivial = every case (each exercises parse + window + filters)",
+                "distinct = distinct case line; non-trivial = every case (each exercises parse + window + filters); one case in sixty is a rule with two or three schedule conditions (different windows and weekday sets, sometimes a date) fed through the real rule client with trigger times at the window edges and judged by the rule model (the active point of schedule conditions)",
         "trusted": ["Go time.Date/AddDate/Weekday/Year/Month/Day, regexp, strconv.Atoi (parameters of the model; exercised by the correspondence run)"],
         "modelled": ["client/schedule.go: activeForTime, timeRange.in, filterWeekdays, filterDates modelled by hand in Siot/Model/Schedule.lean",
                      "Go's regexp engine is modelled by two hand-written leftmost matchers; the regex literals are pinned from source"],
@@ -364,7 +364,7 @@ PROPS = {
                 "Oracle on the history: every request answered without error; a read shows, per identity, a point that some write started before the read ended produced and that is at least as new as "
                 "every write acknowledged before the read was issued; reads of one reader never go back; the final rows are the newest acknowledged point per identity with consistent hashes; stop returned; "
                 "file re-opened. In addition the same load runs under the Go race detector (12 cases quick, 150 thorough): any DATA RACE report is a violation. distinct = distinct case line "
-                "(schedules are wall-clock dependent: each run explores new interleavings)",
+                "(schedules are wall-clock dependent: each run explores new interleavings) One request in twelve of every writer is one the store must refuse (NaN, self edge, cycle): it must be answered with the refusal, not time out.",
         "trusted": ["Go scheduler, sync.Mutex, database/sql connection pool, modernc SQLite WAL snapshot isolation and locking, embedded nats-server: the run-time whose interleavings the model abstracts into a commit order",
                     "the Go race detector (sound for the executions it sees, not complete)"],
         "modelled": ["a concurrent run is modelled by its commit order and by the prefix each read saw (Siot/Model/Conc.lean); the theorems hold for every commit order",
